@@ -1,0 +1,33 @@
+// Verification seams. This header is included only when BLOCH_VERIF is defined, which
+// the repository's own build never does; with the guard off nothing here exists.
+#pragma once
+
+#include <cstdint>
+#include <random>
+
+namespace bloch::verif {
+
+    // H1: source of the 32-bit words behind measurement randomness. When no provider is
+    // installed the engine behaves like the shipped std::mt19937 seeded from random_device.
+    using WordFn = std::uint32_t (*)(void* ctx);
+    inline WordFn g_wordFn = nullptr;
+    inline void* g_wordCtx = nullptr;
+
+    struct Engine {
+        using result_type = std::uint32_t;
+        static constexpr result_type min() { return 0u; }
+        static constexpr result_type max() { return 0xFFFFFFFFu; }
+        result_type operator()() {
+            if (g_wordFn)
+                return g_wordFn(g_wordCtx);
+            static std::mt19937 fallback{std::random_device{}()};
+            return static_cast<result_type>(fallback());
+        }
+    };
+
+    // H2: the interpreter's yield point, called at the top of every statement execution
+    // with the evaluator and the statement about to run.
+    using YieldFn = void (*)(void* evaluator, void* statement);
+    inline YieldFn g_yield = nullptr;
+
+}  // namespace bloch::verif
